@@ -37,6 +37,7 @@ def run(res, prop, extra_lines=None, extra_oracle=None, n_quick=150, n_thorough=
     # fixed scenarios outside the script DSL (symlinks, sub-directories, copies of the tree, ...)
     import scenarios
     fixed = scenarios.run(prop, run_["bindir"])
+    res.scenarios_done = True
     fails = fixed["violations"] + fails
     searched = None
     if run_["disagreements"] and not fails:
